@@ -271,7 +271,7 @@ DrawEv(e) ==
       valid == Range(d.order) \subseteq Range(d.occupied)
       rows == d.order \o SelectSeq(d.occupied, LAMBDA x : x \notin Range(d.order))
       lab(ch) == LET m == {j \in 1..Len(d.labels) : d.labels[j][1] = ch} IN IF m = {} THEN ToString(ch) ELSE d.labels[CHOOSE j \in m : TRUE][2]
-      rowOf(qb) == CHOOSE j \in 1..Len(d.rows) : d.rows[j] = qb
+      rowOf(qb) == LET m == {j \in 1..Len(d.rows) : d.rows[j] = qb} IN IF m = {} THEN 0 ELSE CHOOSE j \in m : TRUE     \* 0: the qubit has no row
       maxEnd == IF Range(leaves) = {} THEN 0 ELSE MaxOf({EndOf(H, E, i) : i \in Range(leaves)})
       maxEndR == IF d.reported = <<>> THEN maxEnd ELSE MaxOf({d.reported[j][3] : j \in 1..Len(d.reported)})
       cl ==
